@@ -2,8 +2,17 @@
 import itertools
 
 ID = "C05"
-HARNESSES = [dict(name="ppp", pkg="./pkg/ppp/", test="TestVerifC05", timeout=900,
-                  files=[("pkg/ppp/zz_verif_c05_test.go", "harness/C05/zz_verif_c05_test.go")])]
+_FILES = [("pkg/ppp/zz_verif_c05_test.go", "harness/C05/zz_verif_c05_test.go")]
+HARNESSES = [dict(name="ppp", pkg="./pkg/ppp/", test="TestVerifC05", timeout=900, files=_FILES),
+             # the forced-overlap (two goroutine) cases run under the race detector
+             dict(name="ppp_race", pkg="./pkg/ppp/", test="TestVerifC05", timeout=900, files=_FILES, race=True)]
+
+
+def route(case):
+    return "ppp_race" if case.startswith("conc ") else "ppp"
+
+
+
 # repaired = both fix patches applied; defective = fsm.go as it stands; the other two = exactly one patch applied
 VARIANTS = ["repaired", "defective", "cells_unfixed", "ncp_unfixed"]
 RULE = ("One case = one whole event history applied to a fresh FSM (kinds fsm / ncp: mock option handler whose answer "
@@ -15,24 +24,35 @@ RULE = ("One case = one whole event history applied to a fresh FSM (kinds fsm / 
         "configurations, by every pair of events from a 21-event alphabet; all sequences of length <= 3 (thorough: 4) "
         "from Initial; random weighted walks of length 60 (thorough 80). Compared exactly after every event: state, "
         "restartCount, timer armed, lastReqID, id, failCount, and the list of sends (code, id, payload class) and "
-        "layer callbacks. Non-trivial: the history produced at least one send or callback. Distinct: by case text. "
-        "The distribution records how many (state, RFC event class) cells of the 10x17 table were exercised.")
+        "layer callbacks, the CONTENT of every Configure-Request sent (predicted from the model of the real handlers' "
+        "BuildConfReq over the handler-call log) and every call the FSM makes into the option handler "
+        "(ProcessConfReq/Ack/Nak/Rej with its options). Configure-Ack/Nak/Reject carry options the real handlers react "
+        "to (auth protocol, MRU, magic, addresses, DNS, interface-id), with current and stale identifiers, followed by "
+        "events that make the FSM send a new Configure-Request. Kind conc (forced overlap, run with -race): after a "
+        "canonical prefix, event A runs on one goroutine and is parked inside its first notification (or send) "
+        "callback by a gate; event B is injected from a second goroutine; the recorded stream and final state must be "
+        "those of the sequential history A;B (events are atomic), tlu/tld must alternate and an acknowledged "
+        "Terminate-Request must leave Opened. Non-trivial: the history produced at least one send or callback. "
+        "Distinct: by case text. The distribution records how many (state, RFC event class) cells of the 10x17 table "
+        "were exercised and how many conc cases really overlapped.")
 TRUSTED = ["the option handler is abstracted to the class of its answer (good/nak/rej/both) for the automaton; "
            "option contents are property C06",
            "timer expiry is the explicit event T (= consume pending timer, run Timeout()); real-time behaviour of "
            "time.AfterFunc is not modelled"]
 ASSUMPTIONS = ["maxConf >= 0 and maxTerm >= 0 (NewFSM fixes them at 10 and 2)",
-               "events are serialized by the FSM mutex (no callback re-enters the FSM)"]
+               "events are serialized by the FSM mutex: each event is one atomic [step] of the model; tied to the code by "
+               "the forced-overlap cases (a second goroutine's event must wait while the first is inside a callback)",
+               "no callback re-enters the FSM"]
 
 ADMIN = ["U", "D", "O", "C", "T"]
 E_FULL = (ADMIN +
           ["I1.%s.%s.0" % (i, c) for i in ("7", "255") for c in "gnrbm"] +
-          ["I%d.%s.%s.0" % (k, i, c) for k in (2, 3, 4) for i in "csp" for c in "gm"] +
+          ["I%d.%s.%s.0" % (k, i, c) for k in (2, 3, 4) for i in "csp" for c in "gnrbm"] +
           ["I5.9.g.0", "I5.c.g.0", "I6.9.g.0", "I6.c.g.0", "I7.9.g.0", "I7.c.g.6", "I8.9.g.0", "I8.9.g.4",
            "I9.9.g.0", "I9.9.g.3", "I9.9.g.4", "I9.c.g.8", "I10.9.g.0", "I10.9.g.4", "I11.9.g.0", "I11.9.g.4",
            "I0.9.g.0", "I12.9.g.3", "I13.3.g.0", "I255.c.g.8", "I14.0.g.1"])
-E_RED = ADMIN + ["I1.7.g.0", "I1.7.n.0", "I1.7.r.0", "I1.7.m.0", "I2.c.g.0", "I2.s.g.0", "I3.c.g.0", "I3.s.g.0",
-                 "I4.c.g.0", "I5.9.g.0", "I6.9.g.0", "I7.9.g.0", "I8.9.g.0", "I9.9.g.4", "I10.9.g.4", "I12.9.g.2"]
+E_RED = ADMIN + ["I1.7.g.0", "I1.7.n.0", "I1.7.r.0", "I1.7.m.0", "I2.c.g.0", "I2.s.g.0", "I3.c.g.0", "I3.s.n.0",
+                 "I4.c.g.0", "I4.p.g.0", "I5.9.g.0", "I6.9.g.0", "I7.9.g.0", "I8.9.g.0", "I9.9.g.4", "I10.9.g.4", "I12.9.g.2"]
 RCRP, RCA, RXJ, RTR = "I1.7.g.0", "I2.c.g.0", "I7.9.g.0", "I5.9.g.0"
 CONFIGS = [("d", "d"), ("2", "1"), ("0", "0"), ("1", "2"), ("3", "0")]
 STATES = ["Initial", "Starting", "Closed", "Stopped", "Closing", "Stopping", "ReqSent", "AckRcvd", "AckSent", "Opened"]
@@ -62,13 +82,50 @@ def prefixes(mc, mt):
     return out
 
 
+# Configure-Request payloads by (kind, answer class); the mock handler reads the class off the first option type
+_MOCK_REQ = {"g": "010405d4050601020304", "n": "2102010405d4", "r": "2202010405d4", "b": "2302", "m": "0100"}
+RCR_DATA = {
+    "fsm": _MOCK_REQ, "ncp": _MOCK_REQ, "conc": _MOCK_REQ,
+    "lcp": {"g": "010405d4050609090909", "n": "01040020", "r": "0702", "b": "010400200702", "m": "0100"},
+    "ipcp": {"g": "03060a000002", "n": "03060a000009", "r": "0206002d0f01", "b": "03060a0000090206002d0f01", "m": "0100"},
+    "ipv6cp": {"g": "010a0200000000000007", "n": "010a0000000000000000", "r": "0202",
+               "b": "010a00000000000000000202", "m": "0100"},
+}
+# Configure-Ack/Nak/Reject payloads: three option lists the handler of that kind reacts to (selected by the letter in
+# the class field: g n r), b = empty, m = malformed
+_MOCK_ACK = {"g": "010405d4", "n": "0304c023", "r": "050601020304", "b": "", "m": "0101"}
+ACK_DATA = {
+    "fsm": _MOCK_ACK, "ncp": _MOCK_ACK, "conc": _MOCK_ACK,
+    "lcp": {"g": "0305c22305", "n": "0304c023", "r": "010405780506aabbccdd", "b": "", "m": "0101"},
+    "ipcp": {"g": "03060a000063", "n": "81060a0a0a0a83060b0b0b0b", "r": "03060a000001", "b": "", "m": "0101"},
+    "ipv6cp": {"g": "010a02000000000000aa", "n": "010a0200000000000001", "r": "0202", "b": "", "m": "0101"},
+}
+
+
+def expand(kind, op):
+    """abstract op token -> concrete token with explicit packet data"""
+    if op[0] != "I":
+        return op
+    p = op[1:].split(".")
+    if len(p) == 5:
+        return op
+    code = int(p[0])
+    if code == 1:
+        return op + "." + RCR_DATA[kind][p[2]]
+    if code in (2, 3, 4):
+        d = ACK_DATA[kind][p[2]]
+        return op + "." + d if d else op
+    return op
+
+
 def mk(kind, cfg, ops):
-    return " ".join([kind, cfg[0], cfg[1]] + list(ops))
+    return " ".join([kind, cfg[0], cfg[1]] + [expand(kind, o) for o in ops])
 
 
 WEIGHTED = ([("U", 3), ("D", 1), ("O", 3), ("C", 1), ("T", 5), ("I1.7.g.0", 4), ("I1.9.n.0", 2), ("I1.7.r.0", 1),
-             ("I1.8.b.0", 1), ("I1.7.m.0", 1), ("I2.c.g.0", 5), ("I2.s.g.0", 1), ("I2.p.m.0", 1), ("I3.c.g.0", 2),
-             ("I3.s.g.0", 1), ("I4.c.g.0", 1), ("I4.p.g.0", 1), ("I5.9.g.0", 1), ("I6.9.g.0", 1), ("I7.9.g.0", 1),
+             ("I1.8.b.0", 1), ("I1.7.m.0", 1), ("I2.c.b.0", 4), ("I2.c.r.0", 1), ("I2.s.g.0", 1), ("I2.p.m.0", 1),
+             ("I3.c.b.0", 1), ("I3.c.n.0", 1), ("I3.c.r.0", 1), ("I3.s.n.0", 1), ("I3.p.g.0", 1), ("I4.c.g.0", 1),
+             ("I4.c.r.0", 1), ("I4.p.g.0", 1), ("I4.s.n.0", 1), ("I5.9.g.0", 1), ("I6.9.g.0", 1), ("I7.9.g.0", 1),
              ("I8.9.g.0", 1), ("I9.9.g.4", 2), ("I9.9.g.2", 1), ("I10.9.g.4", 1), ("I11.9.g.0", 1), ("I12.9.g.2", 1),
              ("I200.c.g.0", 1)])
 WPOP = [w[0] for w in WEIGHTED]
@@ -121,6 +178,29 @@ def gen_cases(rng, tier, budget):
                     cases.append(mk(kind, cfg, p + [e]))
         for _ in range(300 if quick else 3000):
             cases.append(mk(kind, rng.choice([("d", "d"), ("2", "1"), ("0", "0")]), rand_walk(rng, ln)))
+    # 6. real handlers: Ack/Nak/Reject carrying options the handler reacts to (current and stale identifier),
+    #    followed by an event that makes the FSM build a new Configure-Request
+    acks = ["I%d.%s.%s.0" % (k, i, c) for k in (2, 3, 4) for i in "csp" for c in "gnr"]
+    nxt = ["T", "I3.c.b.0", "I1.7.g.0", "I2.c.b.0", "C", "D"]
+    for kind in ("lcp", "ipcp", "ipv6cp"):
+        for p in ([["O", "U"], ["O", "U", "T"], ["O", "U", RCRP], ["O", "U", RCRP, "T"], ["O", "U", RCA],
+                   ["O", "U", RCRP, RCA], ["O", "U", "T", RCRP, RCA], ["O", "U", RCRP, RCA, RTR], ["O", "U", "C"],
+                   ["O", "U", "T", "T", "T"]]):
+            for e1 in acks:
+                for e2 in nxt:
+                    cases.append(mk(kind, ("3", "1"), p + [e1, e2, "T", RCRP]))
+    # 7. forced overlap: A parked in a callback, B injected from a second goroutine
+    A_SET = [RCRP, "I1.7.n.0", RCA, "I3.c.g.0", RTR, "I6.9.g.0", RXJ, "C", "D", "T", "O", "U"]
+    B_SET = [RCA, RTR, RCRP, "T", "C", "D", "I3.c.g.0", "I6.9.g.0"]
+    for p in prefixes("2", "1"):
+        for a in A_SET:
+            for b in B_SET:
+                cases.append(mk("conc", ("2", "1"), p + ["/", "n", a, b]))
+    for p in ([["O", "U"], ["O", "U", RCRP], ["O", "U", RCA], ["O", "U", RCRP, RCA], ["O", "U", "C"], ["U"], ["O"],
+               ["O", "U", RCRP, RCA, RTR]]):
+        for a in A_SET:
+            for b in B_SET:
+                cases.append(mk("conc", ("2", "1"), p + ["/", "s", a, b]))
     cases.append(mk("fsm", ("d", "d"), ["O", "U"] + ["I12.9.g.2"] * 300 + [RCA, "I2.s.g.0", RCRP, RCA]))
     cases.append(mk("fsm", ("d", "d"), ["O", "U"] + ["I3.c.g.0"] * 260 + [RCRP, RCA]))
     return cases
@@ -128,23 +208,41 @@ def gen_cases(rng, tier, budget):
 
 # ---------------------------------------------------------------- reading result lines
 def steps(line):
-    """-> list of (state, restart, armed, lastReq, id, fail, [acts]) or None"""
+    """-> list of (state, restart, armed, lastReq, id, fail, [acts], [handler calls]) or None;
+    the trailing ov=/alt=/term= tokens of a conc case are ignored here (see flags())"""
     out = []
     for tok in line.split():
-        if ":" not in tok:
+        if tok.startswith(("ov=", "alt=", "term=")):
+            continue
+        p = tok.split(":")
+        if len(p) != 3:
             return None
-        v, a = tok.split(":", 1)
-        f = v.split("/")
+        f = p[0].split("/")
         if len(f) != 6:
             return None
         try:
-            out.append(tuple(int(x) for x in f) + ([] if a == "-" else a.split(","),))
+            out.append(tuple(int(x) for x in f) + ([] if p[1] == "-" else p[1].split(","),
+                                                   [] if p[2] == "-" else p[2].split(",")))
         except ValueError:
             return None
     return out
 
 
-INIT = (0, 0, 0, 0, 0, 0, [])
+def flags(line):
+    return [t for t in line.split() if t.startswith(("ov=", "alt=", "term="))]
+
+
+def case_ops(case):
+    """ops of a case; for a conc case the overlapped pair is one combined pseudo-op 'A||B'"""
+    t = case.split()
+    ops = t[3:]
+    if t[0] == "conc" and "/" in ops:
+        k = ops.index("/")
+        return ops[:k] + ["%s||%s@%s" % (ops[k + 2], ops[k + 3], ops[k + 1])]
+    return ops
+
+
+INIT = (0, 0, 0, 0, 0, 0, [], [])
 
 
 def rfc_class(op, pre, kind="fsm"):
@@ -153,8 +251,11 @@ def rfc_class(op, pre, kind="fsm"):
         return {"U": "Up", "D": "Down", "O": "Open", "C": "Close"}[op]
     if op == "T":
         return "TO+" if pre[1] > 0 else "TO-"
-    code, idv, cls, dlen = op[1:].split(".")
-    code, dlen = int(code), int(dlen)
+    if "||" in op:
+        return "overlapped-pair"
+    f = op[1:].split(".")
+    code, idv, cls, dlen = f[:4]
+    code, dlen = int(code), (len(f[4]) // 2 if len(f) > 4 else int(dlen))
     last = pre[3]
     idn = {"c": last, "s": (last + 1) % 256, "p": (last - 1) % 256}.get(idv)
     if idn is None:
@@ -194,7 +295,7 @@ def first_diff(a, b):
 
 def cell_at(case, line, i):
     t = case.split()
-    ops = t[3:]
+    ops = case_ops(case)
     s = steps(line)
     pre = INIT if i == 0 else s[i - 1]
     return STATES[pre[0]], rfc_class(ops[i], pre, t[0]), ops[i]
@@ -210,7 +311,7 @@ def signature(case, impl, models):
         return None
     st, cl, op = cell_at(case, models["repaired"], i)
     kind = case.split()[0]
-    if op[0] == "I" and kind not in ("fsm", "lcp") and 8 <= int(op[1:].split(".")[0]) <= 11:
+    if op[0] == "I" and "||" not in op and kind not in ("fsm", "lcp") and 8 <= int(op[1:].split(".")[0]) <= 11:
         return "ncp-code%s" % op[1:].split(".")[0]
     return "cell-%s-%s" % (st, cl)
 
@@ -219,16 +320,26 @@ def classify(case, impl, model):
     si, sm = steps(impl), steps(model)
     if si is None or sm is None:
         return "P", "implementation output not a step list: %r" % impl[:200]
+    bad = [x for x in flags(impl) if x.endswith("BAD")]
     i = first_diff(impl, model)
     if i is None:
+        if bad or flags(impl) != flags(model):
+            return "P", "forced overlap: monitors on the recorded stream: %s (model: %s)" % (flags(impl), flags(model))
         return "G", "lines differ textually only"
     st, cl, op = cell_at(case, model, i)
     a = si[i] if i < len(si) else None
     b = sm[i] if i < len(sm) else None
     txt = ("step %d: event %s (RFC class %s) in state %s: implementation -> %s, RFC 1661 model -> %s"
            % (i, op, cl, st, a, b))
+    if bad:
+        txt += " [monitors: %s]" % " ".join(bad)
+    if "||" in op:
+        return "P", txt + " (events are not atomic: the second goroutine's event ran inside the first one's callback)"
     if a is None or b is None or a[0] != b[0] or a[6] != b[6]:
         return "P", txt
+    if a[7] != b[7]:
+        return "P", txt + (" (the option handler was called differently: option state, hence the content of later "
+                           "Configure-Requests, departs from what RFC 1661 prescribes)")
     if a[1] != b[1] or a[2] != b[2]:
         return "P", txt + " (restart counter / restart timer differ: bounded-retransmission clause)"
     return "G", txt + " (internal variables only)"
@@ -242,20 +353,26 @@ def nontrivial(case, out):
 def shrink(case):
     t = case.split()
     head, ops = t[:3], t[3:]
+    tail = []
+    if head[0] == "conc" and "/" in ops:
+        k = ops.index("/")
+        ops, tail = ops[:k], ops[k:]
     n = len(ops)
-    if n > 1:
+    if n > 1 and not tail:
         for k in (n // 2, (3 * n) // 4, n - 1):
             if 0 < k < n:
                 yield " ".join(head + ops[:k])
     for i in range(n - 1, -1, -1):
-        yield " ".join(head + ops[:i] + ops[i + 1:])
-    if head[0] in ("lcp", "ipcp", "ipv6cp"):
+        yield " ".join(head + ops[:i] + ops[i + 1:] + tail)
+    if head[0] in ("lcp", "ipcp", "ipv6cp") and not any(len(o.split(".")) == 5 for o in ops):
         yield " ".join([{"lcp": "fsm"}.get(head[0], "ncp")] + head[1:] + ops)
 
 
 def distribution(cases, impl):
     d = {"kinds": {}, "ops": 0, "events": {}, "cells_hit": 0, "cells_total": 0, "final_states": {},
-         "max_len": 0, "panics_or_hangs": 0}
+         "max_len": 0, "panics_or_hangs": 0, "conc_cases": 0, "conc_overlapped": 0, "handler_calls": 0,
+         "configure_requests_compared": 0, "distinct_confreq_contents": 0}
+    contents = set()
     cells = set()
     for c, o in zip(cases, impl):
         t = c.split()
@@ -264,7 +381,16 @@ def distribution(cases, impl):
         if s is None:
             d["panics_or_hangs"] += 1
             continue
-        ops = t[3:]
+        ops = case_ops(c)
+        if t[0] == "conc":
+            d["conc_cases"] += 1
+            d["conc_overlapped"] += "ov=1" in o
+        for x in s:
+            d["handler_calls"] += len(x[7])
+            for a in x[6]:
+                if a.startswith("scr."):
+                    d["configure_requests_compared"] += 1
+                    contents.add((t[0], a.split(".")[2]))
         d["ops"] += len(ops)
         d["max_len"] = max(d["max_len"], len(ops))
         pre = INIT
@@ -277,6 +403,8 @@ def distribution(cases, impl):
         if s:
             n = STATES[s[-1][0]]
             d["final_states"][n] = d["final_states"].get(n, 0) + 1
+    d["distinct_confreq_contents"] = len(contents)
+    cells = {x for x in cells if x[1] != "overlapped-pair"}
     d["cells_hit"] = len({(a, b) for a, b, _ in cells})
     d["cells_x_counterclass_hit"] = len(cells)
     d["cells_total"] = 10 * 18 - 9  # 10 states x (17 RFC classes + discarded); RXJ+ arises in Opened only
